@@ -1,5 +1,5 @@
 (* C02 — dependencies (plan level): every dependency is placed in front of its dependent. *)
-From Shred Require Import Base SrcParams Plan PlanObs PlanInv PlanLoc PlanBuild PlanProps.
+From Shred Require Import Base SrcParams Plan PlanObs PlanInv PlanLoc PlanBuild PlanProps PlanLemmas Exec ExecProps ExecPlan.
 
 (* [runs_before b d s]: d sits in an earlier stage than s, or in the same group at a smaller
    index — in both cases d's run has ended before s begins in every execution of the layout
@@ -15,6 +15,25 @@ Theorem C02_dependencies_placed_in_front :
               (o_deps (e_op e)) (s_deps (e_sys e)).
 Proof. exact plan_deps_ordered. Qed.
 Print Assumptions C02_dependencies_placed_in_front.
+
+(* ---- run time: in EVERY trace a system begins to fetch only after every system it depends
+   on has released (its run has completely ended), whether or not they share a resource ---- *)
+Theorem C02_dependency_released_before_dependent_fetches :
+  forall rs b t,
+  plan rs = Ok b -> Forall reg_time_ok1 rs ->
+  traces_disp (layout_tags b) (b_tl b) t ->
+  exists done, binv b done /\ map (fun e => o_tag (e_op e)) done = sys_tags rs /\
+    forall e e', In e done -> In e' done -> In (s_id (e_sys e')) (s_deps (e_sys e)) ->
+      precedes (ER (s_tag (e_sys e'))) (EF (s_tag (e_sys e))) t.
+Proof. exact run_dependency_finished_first. Qed.
+Print Assumptions C02_dependency_released_before_dependent_fetches.
+
+(* placement in front implies running in front, in every trace (the lemma that carries
+   transitivity: `before` chains compose stage by stage) *)
+Theorem C02_placed_in_front_runs_in_front :
+  forall l tl t d s, traces_disp l tl t -> lay_before l d s -> precedes (ER d) (EF s) t.
+Proof. exact trace_before. Qed.
+Print Assumptions C02_placed_in_front_runs_in_front.
 
 Example C02_example :
   let rs := [RSys 1 [97] [] [] [] 3%Z; RSys 2 [98] [[97]] [] [] 3%Z; RSys 3 [99] [[98]; [97]; [97]] [] [] 3%Z] in
